@@ -1,12 +1,18 @@
 #!/bin/bash
-# Build the whole Coq development (full .vo build) and warm nothing else.
-# Offline; everything comes from files on disk.
-set -e
+# Build the Coq development (full .vo build) for every claimed property. Offline.
+# A property whose proofs do not build is reported by its own check (broken
+# obligation), so a build error here does not abort the setup of the others.
 cd "$(dirname "$0")"
 mkdir -p work evidence replays .cache/numba
-/venv/bin/python harness/gen_consts.py
+/venv/bin/python harness/gen_consts.py || echo "setup: gen_consts failed (checks will report it)"
 cd coq
 { echo "-Q . QE"; echo "-arg -w -arg -deprecated-hint-rewrite-without-locality,-deprecated-instance-without-locality,-notation-overridden,-ambiguous-paths"; find . -name '*.v' | sed 's|^\./||' | LC_ALL=C sort; } > _CoqProject
-coq_makefile -f _CoqProject -o Makefile >/dev/null
-timeout 3000 make -j"${VERIF_JOBS:-16}" 2>&1 | tail -n 40
-test "${PIPESTATUS[0]}" -eq 0
+coq_makefile -f _CoqProject -o Makefile >/dev/null || exit 1
+targets=""
+for m in ../harness/meta/C*.json; do
+  id=$(basename "$m" .json)
+  [ -f "$id/Props.v" ] && targets="$targets $id/Props.vo"
+done
+timeout 3400 make -k -j"${VERIF_JOBS:-16}" $targets 2>&1 | grep -v "^COQDEP\|^COQC\|^Closed under" | tail -n 40
+echo "setup: built targets:$targets"
+exit 0
